@@ -95,41 +95,11 @@ func VerifC32Order() {
 	m := NewMessageBuffer(logging.NoLog{}, slots, maxSize, time.Hour)
 	var acc [][]byte
 	closed := false
-	n := 1 + verifChoose("n", maxOps)
-	for i := 0; i < n; i++ {
-		switch verifChoose("op", 3) {
-		case 0:
-			verifAssume(len(acc) < c32MaxMsgs+1)
-			msg := verifBytes("msg", verifChoose("len", maxLen+1))
-			err := m.Send(msg)
-			if closed {
-				if err == nil {
-					verifFail("send-accepted-after-close")
-				}
-			} else if err == nil {
-				acc = append(acc, msg)
-			} else {
-				verifReach("rejected")
-			}
-		case 1:
-			c32timerFires(m)
-		case 2:
-			err := m.Close()
-			if closed != (err != nil) {
-				verifFail("close-result-wrong")
-			}
-			closed = true
-		}
-	}
-	if !closed {
-		if m.Close() != nil {
-			verifFail("close-error")
-		}
-	}
+	drained := 0
 	next := 0 // accepted messages before `next` are emitted or lost
 	batches := 0
 	lost := false
-	for b := range m.Queue {
+	check := func(b []byte) {
 		batches++
 		if len(b) > maxSize {
 			verifFail("batch-exceeds-max-size")
@@ -162,6 +132,52 @@ func VerifC32Order() {
 			}
 		}
 	}
+	n := 1 + verifChoose("n", maxOps)
+	for i := 0; i < n; i++ {
+		switch verifChoose("op", 4) {
+		case 3:
+			// the consumer takes one batch off a one-slot queue (a slow reader catching up)
+			verifAssume(slots == 1)
+			select {
+			case b, ok := <-m.Queue:
+				if ok {
+					check(b)
+					drained++
+					verifReach("consumer-drained")
+				}
+			default:
+			}
+		case 0:
+			verifAssume(len(acc) < c32MaxMsgs+1)
+			msg := verifBytes("msg", verifChoose("len", maxLen+1))
+			err := m.Send(msg)
+			if closed {
+				if err == nil {
+					verifFail("send-accepted-after-close")
+				}
+			} else if err == nil {
+				acc = append(acc, msg)
+			} else {
+				verifReach("rejected")
+			}
+		case 1:
+			c32timerFires(m)
+		case 2:
+			err := m.Close()
+			if closed != (err != nil) {
+				verifFail("close-result-wrong")
+			}
+			closed = true
+		}
+	}
+	if !closed {
+		if m.Close() != nil {
+			verifFail("close-error")
+		}
+	}
+	for b := range m.Queue {
+		check(b)
+	}
 	if next < len(acc) {
 		lost = true
 	}
@@ -169,8 +185,10 @@ func VerifC32Order() {
 		if slots > 1 {
 			verifFail("accepted-message-not-emitted")
 		}
-		if batches < slots {
-			verifFail("message-lost-without-full-queue")
+		if drained == 0 {
+			if batches < slots {
+				verifFail("message-lost-without-full-queue")
+			}
 		}
 		verifReach("dropped-on-full-queue")
 	}
